@@ -78,6 +78,10 @@ class Adjoint(BaseForm):
 
         return super().__new__(cls)
 
+    def __reduce__(self):
+        """Rebuild from the operand (pickle, copy): __new__ needs it."""
+        return (Adjoint, (self._form,))
+
     def __init__(self, form):
         """Initialise."""
         BaseForm.__init__(self)
